@@ -477,6 +477,8 @@ def r_xp_elements(ck: Checker, modname: str = XP, rule: str = "R-XP-ELEMENTS", m
             # the three names come from one tuple unpack
             unpacks = [st for st in walk_body(fn.body) if isinstance(st, ast.Assign) and isinstance(st.targets[0], ast.Tuple)
                        and [norm(x) for x in st.targets[0].elts] == trio]
+            unpacks += [st for st in walk_body(fn.body) if isinstance(st, ast.For) and isinstance(st.target, ast.Tuple)
+                        and [norm(x) for x in st.target.elts] == trio]
             if ok_cls and unpacks:
                 ck.holds(rule, f, call, what, evaluations=len(states))
             elif not ok_cls:
